@@ -1,6 +1,7 @@
 import AslModel.Codec
 import AslModel.Sha1
 import AslProofs.Codec
+import AslProofs.CodecExt
 import AslProofs.Sha1
 import AslProofs.Sha1Std
 import AslProofs.Query3
@@ -297,6 +298,12 @@ theorem sha1_chunking_irrelevant (ds : List (List UInt8)) :
 theorem sha1_eq_standard (m : List UInt8) : AslModel.Sha1.Impl.hash m = AslModel.Sha1.Std.sha1 m := by
   rw [AslProofs.Sha1.hash_eq_fips, AslProofs.Sha1Std.fips_eq_std]
 
+/-- **sha1_streaming_eq_standard.**  Every partition of a message into `update` calls — empty pieces, pieces that end inside
+    a 64-byte block, pieces spanning several blocks — followed by `end()` gives FIPS 180-4 SHA-1 *as printed* of the whole message -/
+theorem sha1_streaming_eq_standard (ds : List (List UInt8)) :
+    AslModel.Sha1.Impl.hashChunks ds = AslModel.Sha1.Std.sha1 ds.flatten := by
+  rw [AslProofs.Sha1.hashChunks_eq_fips, AslProofs.Sha1Std.fips_eq_std]
+
 /-- the code's boolean round functions `(w&(x^y))^y`, `w^x^y`, `((w|x)&y)|(w&x)` are Ch, Parity and Maj, bit for bit -/
 theorem sha1_round_functions_standard (t : Nat) (b c d : UInt32) :
     AslModel.Sha1.f t b c d = AslModel.Sha1.Std.ft t b c d := AslProofs.Sha1Std.f_eq t b c d
@@ -330,6 +337,98 @@ theorem std_spec_two_blocks : AslModel.Sha1.Std.sha1
 theorem fips_spec_abc : AslModel.Sha1.Fips.sha1 [97, 98, 99] =
     [0xA9, 0x99, 0x3E, 0x36, 0x47, 0x06, 0x81, 0x6A, 0xBA, 0x3E, 0x25, 0x71, 0x78, 0x50, 0xC2, 0x6C, 0x9C, 0xD0, 0xD8, 0x9D] := by
   decide +kernel
+
+/-! ## extension: folded Base64, what the decoder does not accept, literal bytes of `Url::encode` -/
+
+/-- **base64_roundtrip_folded.**  Folding the Base64 text into lines of any length `n` with CR LF (MIME: 76, PEM: 64) does
+    not change what `decodeBase64` returns -/
+theorem base64_roundtrip_folded (n : Nat) (d : List UInt8) : decodeBase64 (foldLines n (encodeBase64 d)) = d := by
+  have hch := AslProofs.CodecExt.rfc_chars d
+  rw [← encode_eq_rfcWith] at hch
+  apply base64_roundtrip_ws
+  · intro c hc
+    rcases AslProofs.CodecExt.wrapAux_mem n n _ c hc with h | h | h
+    · exact (hch c h).2
+    · subst h; decide
+    · subst h; decide
+  · unfold foldLines
+    rw [AslProofs.CodecExt.wrapAux_filter]
+    apply List.filter_eq_self.mpr
+    intro c hc; simp [(hch c hc).1]
+
+/-- the MIME case: a CR LF after every 76 characters -/
+theorem base64_roundtrip_mime76 (d : List UInt8) : decodeBase64 (mimeWrap (encodeBase64 d)) = d :=
+  base64_roundtrip_folded 76 d
+
+example : mimeWrap (List.replicate 77 65) = List.replicate 76 65 ++ [13, 10, 65] := by decide +kernel
+
+/-- the URL-safe alphabet of RFC 4648 §5 is *not* accepted: `-` and `_` (like every byte outside the alphabet) have
+    table value 0, i.e. they are read as `A` -/
+theorem base64_urlsafe_not_supported : inv 45 = 0 ∧ inv 95 = 0 ∧ inv 43 = 62 ∧ inv 47 = 63 ∧
+    decodeBase64 [45, 95, 45, 95] = [0, 0, 0] ∧ decodeBase64 [43, 47, 43, 47] = [0xfb, 0xff, 0xbf] := by decide +kernel
+
+/-- padding is counted, not checked: without its `==`, `"Zm9vYg"` (`"foob"`) gives `"foo"` (an incomplete last group
+    writes nothing); with one `=` of the two, `"Zm9vYg="` gives `"fo"` (nothing written for the group, one more byte taken
+    off); excess padding `"Zm9v===="` gives `"fo"` (the `====` group is decoded as data, then four bytes are taken off);
+    the correctly padded text gives `"foob"` -/
+theorem base64_padding_is_counted_not_checked :
+    decodeBase64 [90, 109, 57, 118, 89, 103] = [102, 111, 111] ∧
+    decodeBase64 [90, 109, 57, 118, 89, 103, 61] = [102, 111] ∧
+    decodeBase64 [90, 109, 57, 118, 61, 61, 61, 61] = [102, 111] ∧
+    decodeBase64 [90, 109, 57, 118, 89, 103, 61, 61] = [102, 111, 111, 98] := by decide +kernel
+
+namespace Rfc3986
+/-- RFC 3986 §2.3: ALPHA / DIGIT / "-" / "." / "_" / "~" -/
+def unreserved (c : UInt8) : Bool :=
+  (65 ≤ c && c ≤ 90) || (97 ≤ c && c ≤ 122) || (48 ≤ c && c ≤ 57) || c == 45 || c == 46 || c == 95 || c == 126
+/-- `! * ' ( )` — sub-delims that `encodeURIComponent` (and this library) also leaves alone -/
+def marks : List UInt8 := [33, 42, 39, 40, 41]
+/-- `; / ? : @ & = + $ , #` — delimiters of a whole URL, literal only in the non-component mode -/
+def delims : List UInt8 := [59, 47, 63, 58, 64, 38, 61, 43, 36, 44, 35]
+def literal (component : Bool) (c : UInt8) : Bool :=
+  unreserved c || marks.contains c || (!component && delims.contains c)
+def upperHex (n : Nat) : UInt8 := [48, 49, 50, 51, 52, 53, 54, 55, 56, 57, 65, 66, 67, 68, 69, 70].getD n 0
+/-- §2.1: "%" HEXDIG HEXDIG, upper case -/
+def pct (c : UInt8) : List UInt8 := [37, upperHex (c.toNat / 16), upperHex (c.toNat % 16)]
+def encByte (component : Bool) (c : UInt8) : List UInt8 := if literal component c then [c] else pct c
+end Rfc3986
+
+/-- all 2 × 256 cases: a byte stays literal exactly when it is RFC 3986 unreserved, one of `!*'()`, or (full-URL mode only)
+    one of `;/?:@&=+$,#`; every other byte becomes `%XX` with upper-case digits -/
+theorem url_literal_bytes (component : Bool) (c : UInt8) :
+    urlEncode [c] component = Rfc3986.encByte component c := by
+  have h : ∀ comp, ∀ n, n < 256 → urlEncode [UInt8.ofNat n] comp = Rfc3986.encByte comp (UInt8.ofNat n) := by
+    decide +kernel
+  have := h component c.toNat c.toNat_lt
+  simpa using this
+
+/-- … lifted to strings -/
+theorem url_encode_is_rfc3986 (s : List UInt8) (component : Bool) :
+    urlEncode s component = s.flatMap (Rfc3986.encByte component) := by
+  induction s with
+  | nil => simp [urlEncode]
+  | cons c t ih =>
+    rw [AslProofs.CodecExt.urlEncode_cons, ih, url_literal_bytes, List.flatMap_cons]
+
+/-- every RFC 3986 unreserved byte is literal in both modes, and a string of literal bytes is left unchanged -/
+theorem url_unreserved_unchanged (s : List UInt8) (component : Bool) (h : ∀ c ∈ s, Rfc3986.unreserved c = true) :
+    urlEncode s component = s := by
+  rw [url_encode_is_rfc3986]
+  induction s with
+  | nil => rfl
+  | cons c t ih =>
+    have hc := h c List.mem_cons_self
+    rw [List.flatMap_cons, ih (fun x hx => h x (List.mem_cons_of_mem _ hx))]
+    simp [Rfc3986.encByte, Rfc3986.literal, hc]
+
+/-- the component mode encodes every delimiter of RFC 3986 §2.2 except `!*'()`; the full-URL mode keeps `;/?:@&=+$,#` -/
+theorem url_modes_differ_exactly :
+    ∀ n, n < 256 → (Rfc3986.literal false (UInt8.ofNat n) ≠ Rfc3986.literal true (UInt8.ofNat n) ↔ Rfc3986.delims.contains (UInt8.ofNat n) = true) := by
+  decide +kernel
+
+example : urlEncode [97, 47, 126, 32, 43] true = [97, 37, 50, 70, 126, 37, 50, 48, 37, 50, 66] := by decide
+example : urlEncode [97, 47, 126, 32, 43] false = [97, 47, 126, 37, 50, 48, 43] := by decide
+example : ∀ c ∈ [97, 45, 126], Rfc3986.unreserved c = true := by decide
 
 /-! ## non-vacuity / sanity instances (tests, labelled as such) -/
 
